@@ -31,6 +31,10 @@ structure Inv2 (U : Id → Option Blk) (F : List Id) (db : DB) : Prop where
   libAbove : ∀ b, U b.id = some b → b.parent = db.libRef.id → db.libRef.num < b.num
   libSelf : ∀ b, U b.id = some b → b.id = db.libRef.id → b.num = db.libRef.num
 
+/-- the head block the forkable remembers is a block of the universe, with its number -/
+def HeadU (U : Id → Option Blk) (s : FState) : Prop :=
+  ∀ l, s.lastSent = some l → ∃ b, U l.id = some b ∧ b.num = l.num
+
 theorem isSent_of_mem (db : DB) (hw : WfEntries db) (e : Entry) (he : e ∈ db.entries) : isSent db e.blk.id = e.sent := by
   simp [isSent, find_of_mem db hw e he]
 
